@@ -882,6 +882,38 @@ def gen_misc(repo, report):
         fail(path, fn, 'ChainContext.reverse changed')
     out.append('Definition chain_reverse_order : string := "current first, then previous".\n')
 
+    # --- cache/disk.py DiskCache and the store CacheToDisk.simple builds (C12)
+    path = os.path.join(C, 'cache/disk.py')
+    src, tree = parse(path)
+    dc = find_class(tree, 'DiskCache')
+    wants = {'prepare': "raw=param.value\ncontext=self.cache.prepare(raw)\nreturn(context.digest,context)",
+             'get': "returnself.cache.read(context,error=False)",
+             'set': "self.cache.write(context,value,error=False,labels=self.labels)"}
+    for name, want in wants.items():
+        fn = find_func(dc.body, name)
+        note('DiskCache.' + name, 'cache/disk.py', fn, src)
+        if norm(fn.body) != want:
+            fail(path, fn, f'DiskCache.{name} changed')
+    out.append('(* cache/disk.py: a miss and an unwritable store are values, not exceptions; the entry key is the digest tarn makes of the node hash *)\n'
+               'Definition disk_get_raises_on_miss : bool := false.\nDefinition disk_set_raises : bool := false.\n')
+    path = os.path.join(C, 'layers/cache.py')
+    src, tree = parse(path)
+    ctd = find_class(tree, 'CacheToDisk')
+    fn = find_func(ctd.body, '__init__')
+    note('CacheToDisk.__init__', 'layers/cache.py', fn, src)
+    body = norm(fn.body)
+    if "self.storage=DiskCache(PickleKeyStorage(index,storage,serializer,algorithm=storage.algorithm),labels=labels)" not in body:
+        fail(path, fn, 'CacheToDisk.__init__ builds another store')
+    fn = find_func(ctd.body, 'simple')
+    note('CacheToDisk.simple', 'layers/cache.py', fn, src)
+    body = norm(fn.body)
+    for piece in ("init_storage(StorageConfig(hash='sha256',levels=[1,31]),index)\ninit_storage(StorageConfig(hash='sha256',levels=[1,31]),storage)",
+                  "returncls(index,HashKeyStorage(DiskDict(storage)),serializer,names,labels=labels)"):
+        if piece not in body:
+            fail(path, fn, 'CacheToDisk.simple builds another store')
+    out.append('(* layers/cache.py CacheToDisk.simple: two plain DiskDicts (no labels / usage / size trackers), blobs behind a HashKeyStorage that raises on a missing blob *)\n'
+               'Definition simple_store : string := "index: DiskDict sha256 [1,31]; storage: HashKeyStorage(DiskDict sha256 [1,31]), error=True".\n')
+
     # --- library-owned callables stored in edges (C19): lambdas / nested defs passed to FunctionEdge(...) in connectome/layers
     sites = []
     for rel in ('layers/group.py', 'layers/split.py', 'layers/filter.py', 'layers/join.py', 'layers/merge.py',
